@@ -324,6 +324,8 @@ func checkC08(c *Ctx) {
 	}
 	checkTimeoutWriters(c, "C08.3", owner)
 
+	checkRemovalUnconditional(c, "C08.7")
+
 	// ---- C08.6 an expired registration stops matching: lookups are computed from the live table on every call
 	r.Rule("C08.6", "connection lookups are computed from the live registration table on every call (no memoised set survives a removal)", 1)
 	if f := c.fn("C08.6", "pkg/station/lib", "RegisteredDecoys", "getRegistrations"); f != nil {
@@ -556,6 +558,67 @@ func checkTimeoutWriters(c *Ctx, rule, owner string) {
 		}
 		if nInit == 0 {
 			r.Unk(rule, "NewRegisteredDecoys initialises "+kv[2], token.NoPos, "", "no store "+kv[2]+" <- "+kv[0]+" found in the constructor")
+		}
+	}
+
+}
+
+// checkRemovalUnconditional: what the sweep selected is removed - the only things that may keep removeRegistration
+// from deleting the record are "record / registration not found" tests; every other condition is played by an
+// adversary (reachAgainst). Shared by C08.7 (expiry) and C02.7 (an expired registration no longer matches).
+func checkRemovalUnconditional(c *Ctx, rule string) {
+	r := c.R
+	// ---- C08.7 what the sweep selected is removed: the only things that may keep removeRegistration from deleting the
+	// record are "record / registration not found" tests; every other condition is played by an adversary
+	r.Rule(rule, "removeRegistration deletes the selected record from both maps whatever else holds (only 'not found' may stop it)", 2)
+	if f := c.fn(rule, "pkg/station/lib", "RegisteredDecoys", "removeRegistration"); f != nil {
+		n := 0
+		eachInstr(f, func(in ssa.Instruction) {
+			call, ok := in.(*ssa.Call)
+			if !ok {
+				return
+			}
+			b, isB := call.Call.Value.(*ssa.Builtin)
+			if !isB || b.Name() != "delete" {
+				return
+			}
+			mp := pathOf(call.Call.Args[0])
+			if !(strings.HasSuffix(mp, ".decoysTimeouts") || strings.Contains(mp, ".decoys[")) {
+				return
+			}
+			n++
+			var extra []string
+			okk := reachGame(f, in, func(bl *ssa.BasicBlock) int {
+				iff, ok := bl.Instrs[len(bl.Instrs)-1].(*ssa.If)
+				if !ok {
+					return gameAny
+				}
+				cnd, pol := normCond(iff.Cond)
+				// found-tests of the two table lookups: the removal must go through the FOUND outcome
+				if strings.HasSuffix(cnd, "]#1") {
+					if pol {
+						return gameSucc0
+					}
+					return gameSucc1
+				}
+				if strings.Contains(cnd, "nil") && (strings.Contains(cnd, ".decoysTimeouts[") || strings.Contains(cnd, ".decoys[")) {
+					// cnd is "(nil == X)": found means the equality is false
+					if pol {
+						return gameSucc1
+					}
+					return gameSucc0
+				}
+				if hit, _ := reachAt(f, bl, isInstr(in), nil, nil); !hit {
+					return gameAny
+				}
+				extra = append(extra, cnd)
+				return gameAll
+			})
+			r.Check(okk, rule, "removeRegistration: delete from "+firstN(mp, 50)+" happens for every selected record", in.Pos(), fnName(f), "reachable whatever the outcome of every condition other than the found-tests",
+				"a record that the sweep selected as expired is not removed if a further condition goes the wrong way ("+firstN(strings.Join(uniq(sortedCopy(extra)), ", "), 120)+"): the registration stays tracked and keeps matching connections past its lifetime")
+		})
+		if n < 2 {
+			r.Unk(rule, "removeRegistration: deletes", f.Pos(), fnName(f), fmt.Sprintf("found %d delete(s) on the two tables, expected 2", n))
 		}
 	}
 
